@@ -18,7 +18,7 @@ import io
 import json
 import tokenize
 
-from vlib import astcanon, c01_findings, common, corpus, pyoracle
+from vlib import astcanon, c01_findings, common, corpus, pymutate, pyoracle
 from vlib.common import Failure, Stats
 
 PROP = "C01"
@@ -156,6 +156,110 @@ def worker_texts(arg):
 
 
 # ----------------------------------------------------------------------------------------
+# family (c): whitespace mutations that keep CPython's token sequence
+
+
+def check_generated(st, text, family, modes=("exec",)):
+    """Like check_text, but first avoids the shapes of recorded findings (counted)."""
+    try:
+        tree = pyoracle.cpy_parse(pyoracle.prep(text, "exec"))
+    except (SyntaxError, ValueError, RecursionError, MemoryError):
+        st.discards += 1
+        return False
+    ex = excluded_shapes(pyoracle.prep(text, "exec"), tree)
+    if ex:
+        for f in ex:
+            st.excluded_known[f] += 1
+        return False
+    check_text(st, text, family, modes=modes)
+    return True
+
+
+def worker_ws(arg):
+    files, scratch = arg
+    st = Stats()
+    for path in files:
+        src = corpus.read_source(path)
+        if not src:
+            continue
+        try:
+            tree = corpus.cpy_parse(src)
+        except (SyntaxError, ValueError, RecursionError, MemoryError):
+            continue
+        for text in corpus.split_statements(src, tree, max_chars=1200):
+            for fn, fam in ((pymutate.squeeze_all, "ws-squeezed"), (pymutate.spread_all, "ws-spread")):
+                try:
+                    v = fn(text)
+                except RecursionError:
+                    v = None
+                if v is not None:
+                    check_generated(st, v, fam)
+    return st
+
+
+# ----------------------------------------------------------------------------------------
+# family (b): token mutations, Hypothesis-driven
+
+
+def _statement_pool(files, max_chars=260, limit=6000):
+    pool = []
+    for path in files:
+        src = corpus.read_source(path)
+        if not src:
+            continue
+        try:
+            tree = corpus.cpy_parse(src)
+        except (SyntaxError, ValueError, RecursionError, MemoryError):
+            continue
+        for text in corpus.split_statements(src, tree, max_chars=max_chars):
+            if 8 <= len(text) <= max_chars:
+                pool.append(text)
+        for text in corpus.embedded_programs(tree, max_len=max_chars):
+            pool.append(text)
+        if len(pool) > limit:
+            break
+    return sorted(set(pool))
+
+
+def worker_mut(arg):
+    seed, n, files, scratch = arg
+    from hypothesis import strategies as hs
+
+    st = Stats()
+    pool = _statement_pool(files)
+    if len(pool) < 50:
+        raise common.HarnessError("mutation pool too small: %d" % len(pool))
+    edit = hs.tuples(hs.sampled_from(pymutate.OPS), hs.integers(0, 400), hs.sampled_from(pymutate.POOL))
+    strat = hs.tuples(hs.integers(0, len(pool) - 1), hs.lists(edit, min_size=1, max_size=3), hs.integers(0, len(pool) - 1))
+
+    def body(v):
+        idx, edits, other = v
+        src = pool[idx]
+        for op, i, repl in edits:
+            toks = pymutate.tokens(src)
+            if toks is None:
+                st.discards += 1
+                return
+            sp = pymutate.spans(src, toks)
+            if op == "replace" and repl == "a" and i % 7 == 0:
+                # splice: an expression-ish chunk of another statement
+                o = pool[other].strip().split("\n")[0]
+                repl = "(" + o + ")" if len(o) < 80 and ":" not in o and "=" not in o else repl
+            new = pymutate.apply_edit(src, sp, op, i, repl)
+            if new is None:
+                st.discards += 1
+                return
+            src = new
+        if src == pool[idx]:
+            st.discards += 1
+            return
+        check_generated(st, src, "token-mutation")
+
+    common.run_given(strat, body, seed, n)
+    return st
+
+
+# ----------------------------------------------------------------------------------------
 
 
 def _pick_files(run):
@@ -186,6 +290,13 @@ def main(run):
     files = sorted(files, key=lambda f: (hash_name(f)))
     shards = [files[i::nw] for i in range(nw)]
     common.pool_map(run, __name__, "worker_corpus", [(sh, True, run.scratch) for sh in shards if sh])
+    # (c) whitespace variants of a subset, (b) token mutations
+    gfiles = sorted(gset)
+    wsfiles = files if run.tier == "thorough" else gfiles[:24]
+    common.pool_map(run, __name__, "worker_ws", [(wsfiles[i::nw], run.scratch) for i in range(nw) if wsfiles[i::nw]])
+    nmut = run.n(2500, 60000)
+    common.pool_map(run, __name__, "worker_mut",
+                    [(common.worker_seed(run.seed, w), nmut, gfiles[w % 4::4], run.scratch) for w in range(nw)])
     xin = corpus.xonsh_test_inputs()
     common.pool_map(run, __name__, "worker_texts", [(xin[i::4], "xonsh-test-inputs", run.scratch) for i in range(4)])
     run.assumptions += [
